@@ -4,6 +4,7 @@ import (
 	"encoding/json"
 	"errors"
 	"fmt"
+	"math"
 	"net"
 	"net/url"
 	"sort"
@@ -766,6 +767,12 @@ func (data *Data) CreateShardGroup(database, policy string, timestamp time.Time)
 	if endTime.After(time.Unix(0, models.MaxNanoTime)) {
 		// Shard group range is [start, end) so add one to the max time.
 		endTime = time.Unix(0, models.MaxNanoTime+1)
+	}
+	if minTime := time.Unix(0, math.MinInt64).UTC(); startTime.Before(minTime) {
+		// Times are stored and exchanged as int64 Unix nanoseconds: a start
+		// before the representable range would wrap around when the metadata
+		// is marshalled. Every timestamp the group accepts is still in range.
+		startTime = minTime
 	}
 
 	for i := range rpi.ShardGroups {
